@@ -102,3 +102,23 @@ Definition check_scope (c : rcase) (lo : lobs) (exp : option (list (str * lblock
            | None => true        (* flag validation happens before the modelled part *)
            end)
           (spec_scope exp lo && extra) (context_missed (model_context c)).
+
+(* C18 / C19: the diagnostics expected by construction (None = the run must fail) *)
+Definition spec_expected_diags (exp : option (list (str * diag))) (ob : obs) : bool :=
+  match exp, ob with
+  | Some e, ObsReport ds _ => mset_eqb pdiag_eqb e ds
+  | None, ObsErr _ => true
+  | _, _ => false
+  end.
+
+Definition check_expected (c : rcase) (ob : obs) (exp : option (list (str * diag))) (extra : bool) : N :=
+  verdict (run_agrees (model_run c) ob) (spec_expected_diags exp ob && exit_matches ob && extra) (full_missed c).
+
+Definition debug_expected (c : rcase) (ob : obs) (exp : option (list (str * diag))) (extra : bool) :=
+  let m := model_run c in
+  (vr_errs m, vr_panic m,
+   match ob with
+   | ObsReport ds _ => (filter (fun d => negb (existsb (pdiag_eqb d) ds)) (vr_diags m),
+                        filter (fun d => negb (existsb (pdiag_eqb d) (vr_diags m))) ds)
+   | _ => ([], [])
+   end).
